@@ -63,6 +63,7 @@ func (e *Engine) verifyFunc(fi *FuncInfo, sweep bool) *FuncReport {
 		rep.Err = err.Error()
 		return rep
 	}
+	c.emitLibAxioms()
 	c.nameObligations()
 	rep.Obls = c.obls
 	for _, o := range c.obls {
@@ -129,6 +130,8 @@ func main() {
 		cmdCheck(os.Args[2:])
 	case "replay":
 		cmdReplay(os.Args[2:])
+	case "all":
+		cmdAll(os.Args[2:])
 	default:
 		fmt.Fprintln(os.Stderr, "unknown command", os.Args[1])
 		os.Exit(2)
@@ -216,3 +219,107 @@ func cmdFunc(args []string) {
 	}
 }
 
+
+// emitLibAxioms registers the (assumed) axioms of the library specs; each is included in a query only when one of
+// the library/spec functions it talks about occurs there.
+func (c *FnCtx) emitLibAxioms() {
+	saveT := c.trustedUsed
+	c.trustedUsed = map[string]bool{}
+	defer func() { c.trustedUsed = saveT }()
+	for _, ax := range c.eng.axioms {
+		if ax.Lemma {
+			continue
+		}
+		func() {
+			defer func() {
+				if r := recover(); r != nil {
+					if _, ok := r.(unsupported); ok {
+						return // the axiom talks about types this function's context cannot resolve: irrelevant here
+					}
+					panic(r)
+				}
+			}()
+			st := &State{vars: map[types.Object]*Term{}, heap: map[string]*Term{}, ghost: map[string]*Term{}, alloc: intLit(0)}
+			savePre := c.pre
+			t := c.specEval(st, ax.Expr, map[string]*Term{}, nil)
+			c.pre = savePre
+			if len(st.heap) > 0 {
+				return // axioms must not depend on the heap
+			}
+			syms := map[string]bool{}
+			symbolsOf(t.String(), syms)
+			var needs []string
+			for sname := range syms {
+				if strings.HasPrefix(sname, "fn_") || strings.HasPrefix(sname, "sf_") {
+					needs = append(needs, sname)
+				}
+			}
+			if len(needs) == 0 {
+				return
+			}
+			sort.Strings(needs)
+			c.smt.axiom("lib:"+ax.Name, t.String(), true, needs...)
+		}()
+	}
+}
+
+// cmdAll: verify every function that has a (non-trusted) contract; print failures and totals (regression aid).
+func cmdAll(args []string) {
+	fs := flag.NewFlagSet("all", flag.ExitOnError)
+	timeout := fs.Int("timeout", 10, "per-query timeout (s)")
+	fs.Parse(args)
+	eng, err := loadEngine(repoDir(), filepath.Join(verifDir(), "contracts", "lib"))
+	if err != nil {
+		fmt.Fprintln(os.Stderr, "load:", err)
+		os.Exit(2)
+	}
+	var keys []string
+	for k, ct := range eng.contracts {
+		if strings.HasPrefix(k, repoPrefix) && !ct.Trusted {
+			keys = append(keys, k)
+		}
+	}
+	sort.Strings(keys)
+	var jobs []*solveJob
+	var owners []*Obligation
+	bad := 0
+	for _, k := range keys {
+		fi := eng.funcs[k]
+		if fi == nil {
+			fmt.Println("UNBOUND contract:", shortFuncKey(k))
+			bad++
+			continue
+		}
+		rep := eng.verifyFunc(fi, false)
+		if rep.Err != "" {
+			fmt.Printf("OUTSIDE %s: %s\n", shortFuncKey(k), rep.Err)
+			bad++
+			continue
+		}
+		for i, o := range rep.Obls {
+			jobs = append(jobs, &solveJob{name: o.Name, text: rep.Texts[i]})
+			owners = append(owners, o)
+		}
+	}
+	tmp, _ := os.MkdirTemp("", "gvc-all")
+	solveAll(tmp, jobs, "quick", *timeout, 16)
+	os.RemoveAll(tmp)
+	for i, j := range jobs {
+		o := owners[i]
+		ok := j.res.Status == "unsat"
+		if o.Cover {
+			ok = j.res.Status != "unsat" && j.res.Status != "error"
+		}
+		if !ok {
+			bad++
+			fmt.Printf("FAIL %-70s %-8s %5.2fs %s\n", fmt.Sprintf("%s.%d", o.Name, o.Inst), j.res.Status, j.res.Seconds, truncate(o.Detail, 80))
+		}
+	}
+	fmt.Printf("%d functions, %d obligations, %d problems\n", len(keys), len(jobs), bad)
+	for n := range eng.notes {
+		fmt.Println("note:", n)
+	}
+	if bad > 0 {
+		os.Exit(1)
+	}
+}
